@@ -84,7 +84,7 @@ func vLoadCorpus(ext string) []string {
 	return res
 }
 
-var vToks = []string{" ", "\n", ";", "=", "=>", "<=>", "{", "}", "[", "]", "(", ")", "<", ">", ":", "?", "#", "%", "*", "+", "!", "|", "_", ".", ",", "@read ", "@any", "---types---", "---functions---", "//x\n", "/*", "*/", "int", "Foo", "a.b", "a.B", "#12345678", "#1234567", "#123456789", "3", "Type", "t:Type", "n:#", "\r\n", "\r", "\t", "\xff", "\x00", "\xc3", "x.0?", "x.99999999999?", "99999999999", "4294967295", "4294967296", "_x", "tlgen:", "\"", "'", "-", "--", "---", "\\", " "}
+var vToks = []string{" ", "\n", ";", "=", "=>", "<=>", "{", "}", "[", "]", "(", ")", "<", ">", ":", "?", "#", "%", "*", "+", "!", "|", "_", ".", ",", "@read ", "@any", "---types---", "---functions---", "//x\n", "/*", "*/", "int", "Foo", "a.b", "a.B", "#12345678", "#1234567", "#123456789", "3", "Type", "t:Type", "n:#", "\r\n", "\r", "\t", "\xff", "\x00", "\xc3", "x.0?", "x.99999999999?", "99999999999", "4294967295", "4294967296", "_x", "tlgen:", "\"", "'", "-", "--", "---", "\\", " ", "\xef\xbb\xbf", "\u00a0", "\x0b", "\x0c", "\x1a", "\x7f", "\xe2\x80", "\xf0\x9f\x98\x80", "\u2029"}
 
 func vMutate(r *rand.Rand, s string) string {
 	b := []byte(s)
@@ -95,6 +95,12 @@ func vMutate(r *rand.Rand, s string) string {
 			continue
 		}
 		p := r.Intn(len(b))
+		if r.Intn(25) == 0 {
+			// something unusual at the very start of the text (byte order mark, stray control byte ...)
+			tk := vToks[len(vToks)-9+r.Intn(9)]
+			b = append([]byte(tk), b...)
+			continue
+		}
 		switch r.Intn(7) {
 		case 0:
 			e := p + 1 + r.Intn(8)
